@@ -175,7 +175,9 @@ fn ref_text(s: &str) -> Option<Option<Vec<u8>>> {
             && !n.ends_with("..") && !n.starts_with('.')
     };
     if !name_ok(owner) { return None; }
-    let ttl: u32 = match toks[1].parse::<u64>() { Ok(v) if v <= u32::MAX as u64 && toks[1].bytes().all(|c| c.is_ascii_digit()) => v as u32, _ => return if toks[1].bytes().all(|c| c.is_ascii_digit()) { Some(None) } else { None } };
+    // the TTL is a run of decimal digits that fits 32 bits: anything else (a sign, a letter, a value above 2^32-1) is an error
+    if !toks[1].bytes().all(|c| c.is_ascii_digit()) { return Some(None); }
+    let ttl: u32 = match toks[1].parse::<u64>() { Ok(v) if v <= u32::MAX as u64 => v as u32, _ => return Some(None) };
     // a class other than IN (any other purely alphabetic word) is an error
     if !toks[2].eq_ignore_ascii_case("IN") { return if toks[2].bytes().all(|c| c.is_ascii_alphabetic()) { Some(None) } else { None }; }
     let t = toks[3].to_ascii_uppercase();
@@ -344,6 +346,8 @@ pub fn gen(prop: &str, r: &mut Rng) -> Vec<String> {
                 _ => { let k = *r.pick(&["MX", "SOA", "DS", "A", "NS"]); format!("{} {}", kw(r, k), hn(r)) }
             };
             let class = if r.chance(1, 25) { let c = *r.pick(&["CH", "HS", "ANY", "INN", "I"]); kw(r, c) } else { kw(r, "IN") };
+            // the TTL field: now and then with a sign, a letter or a blank-free suffix
+            let ttl = if r.chance(1, 25) { format!("{}{}{}", *r.pick(&["+", "-", "", ""]), ttl, *r.pick(&["", "x", "s", ".0"])) } else { ttl.to_string() };
             let mut text = format!("{}{}{}{}{}{}{}", owner, ws(r), ttl, ws(r), class, ws(r), body);
             if r.chance(1, 6) { let n = r.below(text.len() as u64 + 1) as usize; if text.is_char_boundary(n) { text.truncate(n); } }
             if r.chance(1, 8) { text.push_str(" extra"); }
